@@ -86,6 +86,9 @@ func (rc *Config) Router(logger *zap.Logger, resolvers []dns.SimpleResolver, res
 	domainSetMap := make(map[string]domainset.DomainSet, len(rc.DomainSets))
 
 	for _, dsc := range rc.DomainSets {
+		if _, ok := domainSetMap[dsc.Name]; ok {
+			return nil, fmt.Errorf("duplicate domain set name: %q", dsc.Name)
+		}
 		domainSet, err := dsc.DomainSet()
 		if err != nil {
 			return nil, fmt.Errorf("failed to load domain set %q: %w", dsc.Name, err)
@@ -96,6 +99,9 @@ func (rc *Config) Router(logger *zap.Logger, resolvers []dns.SimpleResolver, res
 	prefixSetMap := make(map[string]*bart.Lite, len(rc.PrefixSets))
 
 	for _, psc := range rc.PrefixSets {
+		if _, ok := prefixSetMap[psc.Name]; ok {
+			return nil, fmt.Errorf("duplicate prefix set name: %q", psc.Name)
+		}
 		s, err := psc.LoadPrefixSet()
 		if err != nil {
 			return nil, fmt.Errorf("failed to load prefix set %q: %w", psc.Name, err)
